@@ -83,7 +83,7 @@ _bparams = '(buf : List UInt8) (rln : Int) (res : List UInt8) (needed : Int)'
 SITES = [
     Site('supervisor/dispatchers.py', 'PEventListenerDispatcher.handle_listener_state_change', 'hlsc',
          _params, _hl_vars, consts=_hl_consts,
-         want={'hlsc_g%d' % k for k in range(15)} | {'hlsc_a%d' % k for k in (4, 5, 6, 8, 10, 13, 14, 15, 16, 17, 20, 23, 24, 27)}),
+         want={'hlsc_g%d' % k for k in range(16)} | {'hlsc_a%d' % k for k in (4, 5, 6, 8, 10, 13, 14, 15, 16, 17, 20, 23, 24, 27)}),
     Site('supervisor/dispatchers.py', 'PEventListenerDispatcher.handle_listener_state_change', 'hbody',
          _bparams, _hb_vars, consts=_hl_consts,
          want={'hbody_a22', 'hbody_a25'}),
